@@ -1,0 +1,45 @@
+//go:build verif
+
+// Contracts and specification functions for the verifier in /verif (see /verif/DESIGN.md). This file is compiled only
+// with the build tag "verif"; it adds declarations and comments and changes nothing in the package.
+package nclient4
+
+func verifAssert(b bool) {}
+
+// ---------- C18: RFC 1071 checksum ----------
+
+// specSum16: the sum of the big-endian 16-bit words of b from index i on (an odd trailing byte is the high byte of a
+// word whose low byte is zero)
+//@ contract specSum16
+//@   requires i >= 0 && i <= len(b)
+//@   decreases len(b) - i
+//@   ensures result >= 0 && result <= 65535*((len(b)-i+1)/2+1)
+func specSum16(b string, i int) int {
+	if i >= len(b) {
+		return 0
+	}
+	if i+1 == len(b) {
+		return int(b[i]) * 256
+	}
+	return int(b[i])*256 + int(b[i+1]) + specSum16(b, i+2)
+}
+
+// one's complement addition keeps the value modulo 65535 and never turns a positive sum into zero
+//@ contract checksumCombine
+//@   ensures int(result)%65535 == (int(a)+int(b))%65535
+//@   ensures int(a)+int(b) > 0 ==> result > 0
+
+//@ contract calculateChecksum
+//@   requires len(buf) <= 65536 && int(initial) <= 131071
+//@   ensures[sum] int(result)%65535 == (int(initial)+specSum16(string(buf), 0))%65535
+//@   ensures[nonzero] int(initial)+specSum16(string(buf), 0) > 0 ==> result > 0
+//@   let B = string(buf)
+//@   let odd = ite(len(buf)%2 == 1, int(buf[len(buf)-1])*256, 0)
+//@   loop 0 invariant[range] 0 <= i && i <= l && i%2 == 0 && l%2 == 0 && l == len(buf)-len(buf)%2
+//@   loop 0 invariant[work] int(v) + specSum16(B, i) == int(initial) + specSum16(B, 0) + odd
+//@   loop 0 invariant[bound] int(v) <= int(initial) + 65535*(i/2+1)
+
+//@ contract checksum
+//@   requires len(buf) <= 65536
+//@   ensures[sum] int(result)%65535 == (int(initial)+specSum16(string(buf), 0))%65535
+//@   ensures[nonzero] int(initial)+specSum16(string(buf), 0) > 0 ==> result > 0
